@@ -21,7 +21,7 @@ THEOREMS = [
     'run .. [] = Ok o\'\' /\\ o_rows o = (0,0,4) /\\ o_rows o\' = (0,0,1) /\\ o_rows o\'\' = (0,0,0)',
     'C06_grid_known_class : 0 <= ec, er < 32768 -> Forall (fun kc => fst kc = Absolute -> harmless ec er (snd kc)) cs -> '
     'grid_placement_run ec er fl (map (neutralise Absolute) cs) = grid_placement_run ec er fl cs',
-    'C06_abs_blind_engine : AbsBlind algo ab oeq leq -> asim t t\' -> memo f t i = Some (o, t1) -> memo f\' t\' i = Some (o\', t1\') -> '
+    'C06_abs_blind_engine_partial : AbsBlind algo ab oeq leq -> asim t t\' -> memo f t i = Some (o, t1) -> memo f\' t\' i = Some (o\', t1\') -> '
     'asim t1 t1\' /\\ (ab (style t) = false -> oeq o o\')',
     'C06_block_inflow_abs_blind : Forall2 xrel xs xs\' (both absolute, or same in-flow item and child outputs equal up to content_size) -> '
     'Forall2 rrel (io_results (block_inflow P xs)) (io_results (block_inflow P xs\')) /\\ same in-flow records /\\ same static positions /\\ '
@@ -33,7 +33,7 @@ THEOREMS = [
     'C06_grid_items_ignore_absolute, C06_block_items_absolute_flagged, C06_block_source_predicates, C06_block_content_width_ignores_absolute',
     'C06_block_algorithm_abs_blind : AbsChildLocal abs_child -> AbsBlind (block_alg pre abs_child) bs_visible_absolute out_eq lay_eq   '
     '[block_alg = compute_inner as a resumption, Model/BlockAlg.v]',
-    'C06_block_engine_instance : the conclusion of C06_abs_blind_engine for engines of block containers and leaves, no premise on the algorithms',
+    'C06_block_engine_instance_partial : the conclusion of C06_abs_blind_engine_partial for engines of block containers and leaves, no premise on the algorithms',
     'C06_flex_algorithm_abs_blind : AbsBlind flex_alg f_visible_absolute fout_eq flay_eq   [flex_alg = compute_flexbox_layout as a resumption, '
     'Model/FlexAlg.v, K-exact against the event trace of the implementation]',
     'C06_blockflex_engine_instance : the conclusion of C06_abs_blind_engine for engines of block containers, flex containers and leaves',
